@@ -110,6 +110,19 @@ class Handlers(UserDict):
         #   to a cached handler that was removed.
         self._resolve.cache_clear()  # type: ignore[attr-defined]
 
+    def __ior__(self, other: Any) -> Handlers:  # type: ignore[override, misc]
+        result = super().__ior__(other)
+
+        # NOTE: UserDict.__ior__() updates the underlying dict directly, so the
+        #   cache has to be invalidated here as well.
+        self._resolve.cache_clear()  # type: ignore[attr-defined]
+        return result
+
+    def __copy__(self) -> Handlers:
+        # NOTE: The default UserDict.__copy__() would share the resolver (and
+        #   its cache) that is bound to the original instance.
+        return self.copy()
+
     def _create_resolver(self) -> ResolverMethod:
         # PERF(kgriffs): Under PyPy the LRU is relatively expensive as compared
         #   to the common case of the self.data lookup succeeding. Using
